@@ -404,16 +404,53 @@ func run(r *core.Run) {
 	})
 	section("text", func() {
 		strs := textStrings(3)
+		// the same bytes arise from several (string, form) pairs ("a"+nul = "a\x00"); each
+		// distinct byte sequence is run once, through decode.Decode if any of its pairs asks for it
+		type payload struct {
+			raw []byte
+			e2e bool
+		}
+		var pls []*payload
+		byRaw := map[string]*payload{}
 		n := 0
-		r.Case(en.idx, "text")
 		for si, s := range strs {
 			for _, p := range textForms(s) {
-				en.each("text", bitsOfBytes(p.raw), textGroups(len(p.raw)), si%13 == 7)
 				n++
+				pl := byRaw[string(p.raw)]
+				if pl == nil {
+					pl = &payload{raw: p.raw}
+					byRaw[string(p.raw)] = pl
+					pls = append(pls, pl)
+				}
+				pl.e2e = pl.e2e || si%13 == 7
+			}
+		}
+		bom8 := "\xef\xbb\xbf"
+		var lead8, inner8, lead16, inner16 int
+		r.Case(en.idx, "text")
+		for _, pl := range pls {
+			en.each("text", bitsOfBytes(pl.raw), textGroups(len(pl.raw)), pl.e2e)
+			raw := string(pl.raw)
+			if strings.HasPrefix(raw, bom8) {
+				lead8++
+			}
+			if strings.Contains(strings.TrimPrefix(raw, bom8), bom8) {
+				inner8++
+			}
+			if strings.HasPrefix(raw, "\xff\xfe") || strings.HasPrefix(raw, "\xfe\xff") {
+				lead16++
+			}
+			if len(raw) > 2 && (strings.Contains(raw[2:], "\xff\xfe") || strings.Contains(raw[2:], "\xfe\xff")) {
+				inner16++
 			}
 		}
 		r.Extra("text_strings", len(strs))
 		r.Extra("text_payloads", n)
+		r.Extra("text_payloads_distinct", len(pls))
+		r.Extra("text_payloads_starting_with_utf8_bom", lead8)
+		r.Extra("text_payloads_with_utf8_bom_after_the_start", inner8)
+		r.Extra("text_payloads_starting_with_utf16_bom", lead16)
+		r.Extra("text_payloads_with_utf16_bom_bytes_after_the_start", inner16)
 	})
 	section("invalid-arguments", func() {
 		r.Case(en.idx, "invalid arguments")
